@@ -9,8 +9,10 @@ import (
 	"bytes"
 	"encoding/json"
 	"fmt"
+	"os"
 	"os/exec"
 	"strconv"
+	"strings"
 	"time"
 
 	"verifharness/core"
@@ -158,11 +160,34 @@ func completionPlan(res []int, perm []int, mode string) []string {
 	return plan
 }
 
+// VERIF_C19_ONLY=race,lock,trav,fanout (development aid) restricts a run to some of the streams; unset = all of them.
+func c19Stream(name string) bool {
+	only := os.Getenv("VERIF_C19_ONLY")
+	if only == "" {
+		return true
+	}
+	for _, s := range strings.Split(only, ",") {
+		if s == name {
+			return true
+		}
+	}
+	return false
+}
+
 func runC19(ctx *core.Ctx) {
-	runC19Race(ctx)
+	if c19Stream("race") {
+		runC19Race(ctx)
+	}
+	if c19Stream("lock") {
+		runC19Lock(ctx)
+	}
 	ctx.Wait()
-	runC19Trav(ctx)
-	runC19Fanout(ctx)
+	if c19Stream("trav") {
+		runC19Trav(ctx)
+	}
+	if c19Stream("fanout") {
+		runC19Fanout(ctx)
+	}
 }
 
 func runC19Fanout(ctx *core.Ctx) {
@@ -245,7 +270,7 @@ func runC19Fanout(ctx *core.Ctx) {
 		}
 	}
 	// ---- seeded random schedules chosen by the harness (with blocked-step probes)
-	nr := ctx.Pick(4000, 60000)
+	nr := ctx.Pick(3000, 60000)
 	for i := 0; i < nr; i++ {
 		n := ctx.Rng.Intn(7)
 		res := make([]int, n)
